@@ -84,7 +84,8 @@ def check(ctx, run):
     ph = W.feature("PrevHedge", hedger=Obj(W.HEDGER, "hedger"))
     res2 = interp.explore(prog.lookup_method(ph.cls, "get"), [W.integer("i")], {}, self_obj=ph)
     rd = [e for r in res2 for e in r["events"] if e["kind"] == "module_method" and e["method"] == "get_buffer"]
-    okb = len(wr) == 1 and len(rd) == 1 and wr[0]["name"] == rd[0]["args"][0] and wr[0]["tensor"] == out
+    wr = [e for e in wr if e.get("tensor") is not None] or wr
+    okb = bool(wr) and len(rd) == 1 and all(e["name"] == rd[0]["args"][0] and same_values(e["tensor"]) == out for e in wr)
     fact(run, prog, hook, "C03.R3b", f"hook stores its output argument itself under the name PrevHedge reads ({wr[0]['name'] if wr else '?'} / {rd[0]['args'][0] if rd else '?'})", okb)
     # (c,d,e) on compute_hedge with two hedging instruments
     ch = prog.lookup_method(W.HEDGER, "compute_hedge")
@@ -104,7 +105,7 @@ def check(ctx, run):
     if idx_loop is not None:
         pre = [e for e in ev[:idx_loop] if e["kind"] == "register_buffer" and e["name"] == "prev_output"]
         if pre:
-            t = pre[-1]["tensor"]
+            t = same_values(pre[-1]["tensor"])
             shape = t.args[1] if isinstance(t, Op) and t.op == "new_zeros" and len(t.args) > 1 else None
             okc = isinstance(shape, tuple) and len(shape) == 3 and shape[1] == 1 and shape[2] == 2 and isinstance(t.args[0], Sym) and t.args[0].name == "hA.spot"
             whyc = f"reset value {str(t)[:90]}"
@@ -113,7 +114,7 @@ def check(ctx, run):
     fact(run, prog, ch, "C03.R3c", "prev_output reset to zeros of shape (N, 1, H) from hedge[0].spot before the loop: " + whyc, okc)
     inloop = [e for e in ev[idx_loop:] if e["kind"] == "register_buffer" and e["name"] == "prev_output"] if idx_loop is not None else []
     calls = [e for e in ev[idx_loop:] if e["kind"] == "opaque_call" and isinstance(e["callee"], Sym) and e["callee"].name == "model"] if idx_loop is not None else []
-    okd = len(inloop) == 1 and len(calls) == 1 and inloop[0]["tensor"] == Op("call", (calls[0]["callee"],) + tuple(calls[0]["args"]), calls[0]["kwargs"])
+    okd = len(inloop) == 1 and len(calls) == 1 and same_values(inloop[0]["tensor"]) == Op("call", (calls[0]["callee"],) + tuple(calls[0]["args"]), calls[0]["kwargs"])
     fact(run, prog, ch, "C03.R3d", "inside the loop the model runs through self(input) so the hook stores its output", okd)
     carried = ev[idx_loop].get("carried", []) if idx_loop is not None else []
     model_in = calls[0]["args"][0] if calls else None
@@ -168,6 +169,13 @@ def check(ctx, run):
         if not ok4:
             run.fail(Finding("C03.R4", ch.qualname, f"[{label}] {msg}", "for a model mapping (N, T', F) to (N, T', H) the hedge must have shape (N, H, T) on both branches",
                              file=str(prog.modules[ch.module].path), line=ch.node.lineno, case=label))
+
+
+def same_values(t):
+    """strip value-preserving wrappers (whether the graph is kept is C14.R2's business): clone / contiguous / detach / same-dtype cast"""
+    while isinstance(t, Op) and t.op in ("clone", "contiguous", "detach", "to", "view_as") and t.args and isinstance(t.args[0], (Op, Sym)):
+        t = t.args[0]
+    return t
 
 
 def containers(ctx, run, rule="C03.R5"):
